@@ -285,6 +285,34 @@ func (x *c11World) apply(op string) bool {
 		if r != nil && r.Err == 0 {
 			x.fail("refused-operation/acknowledged-although-destination-is-a-folder", fmt.Sprintf("%s: %v", op, r))
 		}
+	case "ontopartial":
+		// the name is shown in the list for a partial upload ("p.bin" for p.bin.incomplete): a rename, move or new folder
+		// that would put a second entry of that name into the list is refused, nothing changes
+		name := p[3]
+		var r *ref.Tx
+		switch p[1] {
+		case "rename":
+			src := p[2]
+			if !m.exists(src) || strings.HasPrefix(m.ent[src], "->") || m.exists(join(dirOf(src), name)) || !m.exists(join(dirOf(src), name)+".incomplete") {
+				return false
+			}
+			r = x.req(ref.Tx{Type: ref.TSetFileInfo, Fields: append(pathFields(dirOf(src)), ref.F(ref.FFileName, macRoman(filepath.Base(src))), ref.F(ref.FFileNewName, macRoman(name)))})
+		case "mkdir":
+			if m.exists(name) || !m.exists(name+".incomplete") {
+				return false
+			}
+			r = x.req(ref.Tx{Type: ref.TNewFolder, Fields: []ref.Fld{ref.F(ref.FFileName, macRoman(name))}})
+		case "move":
+			// p[2] is a file in a folder, named like the partial upload in the root
+			src := p[2]
+			if !m.exists(src) || filepath.Base(src) != name || m.exists(name) || !m.exists(name+".incomplete") || dirOf(src) == "" {
+				return false
+			}
+			r = x.req(ref.Tx{Type: ref.TMoveFile, Fields: append(pathFields(dirOf(src)), ref.F(ref.FFileName, macRoman(name)), ref.F(ref.FFileNewPath, []byte{0, 0}))})
+		}
+		if r != nil && r.Err == 0 {
+			x.fail("refused-operation/acknowledged-although-the-name-is-shown-for-a-partial-upload", fmt.Sprintf("%s: %v", op, r))
+		}
 	case "renamefailc":
 		// a set-file-info request with a comment and a new name that is taken: refused, and nothing of it is carried out
 		src, dst := p[1], join(dirOf(p[1]), p[2])
@@ -566,7 +594,7 @@ func c11Alphabet() []string {
 	a = append(a, "del|p.bin", "mkdir|dé/new", "mkdir|dé/in2.txt", "del|dé/in2.txt", "rename|dé/in2.txt|r2.txt", "move|a.txt|dé", "move|dé/in2.txt|e", "comment|dé/in2.txt", "alias|a.txt|dé", "rename|dé|dd", "move|dé|e", "del|dé", "mkdir|zé/sub")
 	a = append(a, "mkdir|new", "mkdir|a.txt", "mkdir|d", "mkdir|d/new", "mkdir|zé", "alias|a.txt|e", "alias|d|e", "alias|q.sit|d",
 		"rename|n1.txt|a.zip", "rename|a.txt|a.zip", "rename|i.dat|i.txt",
-		"movefail|q.sit|other", "renamefailc|a.txt|q.sit", "renamefailc|d|e", "renamefail|q.sit|d", "renamefail|a.txt|e", "renamefail|i.dat|d", "uncomment|q.sit", "uncomment|a.txt", "uncomment|d", "del|n1.txt", "move|n1.txt|e", "comment|n1.txt", "del|dd", "rename|dd|d", "mkdir|dd", "comment|e/a.txt", "del|e/a.txt", "rename|e/a.txt|r.txt")
+		"movefail|q.sit|other", "ontopartial|rename|i.dat|p.bin", "ontopartial|mkdir||p.bin", "rename|e/a.txt|p.bin", "ontopartial|move|e/p.bin|p.bin", "renamefailc|a.txt|q.sit", "renamefailc|d|e", "renamefail|q.sit|d", "renamefail|a.txt|e", "renamefail|i.dat|d", "uncomment|q.sit", "uncomment|a.txt", "uncomment|d", "del|n1.txt", "move|n1.txt|e", "comment|n1.txt", "del|dd", "rename|dd|d", "mkdir|dd", "comment|e/a.txt", "del|e/a.txt", "rename|e/a.txt|r.txt")
 	return a
 }
 
